@@ -192,7 +192,11 @@ impl<'a> B<'a> {
                     let twice = json!(json!([salt, k, v]).to_string());
                     let twice_ws = json!(format!(" {}", json!([salt, k, v])));
                     let indexed = json!({"0": salt, "1": k, "2": v});
-                    self.r.pick(&[json!({"salt": "s"}), json!("str"), json!(5), json!(null), twice.clone(), twice, twice_ws, indexed.clone(), indexed]).clone()
+                    // ... and OBJECTS with the field names a typed decoder would give the three positions
+                    let named = json!({"salt": salt, "name": k, "value": v});
+                    let named2 = json!({"salt": salt, "key": k, "value": v});
+                    let named3 = json!({"value": v, "name": k, "salt": salt, "extra": 1});
+                    self.r.pick(&[json!({"salt": "s"}), json!("str"), json!(5), json!(null), twice.clone(), twice, twice_ws, indexed.clone(), indexed, named.clone(), named, named2, named3]).clone()
                 } else if self.dev("name-nonstring") {
                     let nm = self.r.pick(&[json!(5), json!(null), json!(["a"]), json!({"a": 1}), json!(true)]).clone();
                     json!([salt, nm, v])
@@ -344,7 +348,8 @@ impl<'a> B<'a> {
                 } else if self.dev("elem-nonarray") {
                     let twice = json!(json!([salt, v]).to_string());
                     let indexed = json!({"0": salt, "1": v});
-                    self.r.pick(&[json!("str"), json!({"a": 1}), json!(null), json!(3), twice.clone(), twice, indexed.clone(), indexed]).clone()
+                    let named = json!({"salt": salt, "value": v});
+                    self.r.pick(&[json!("str"), json!({"a": 1}), json!(null), json!(3), twice.clone(), twice, indexed.clone(), indexed, named.clone(), named]).clone()
                 } else {
                     json!([salt, v])
                 };
